@@ -14,7 +14,7 @@ ID = 'C11'
 RULE = ('(a) exhaustive: every eligibility class-count vector (c_fixed, t_fixed, cx, tx, ct, ctx, x_fixed) with 1..4 geos (quick) / '
         '1..6 (thorough) x settings (treatment range x control range x geo-ratio tolerance; quick: a rotating sixth of the 180 '
         'settings per vector, thorough: all 180); the object is built on a small synthetic panel whose geo order is a drawn '
-        'permutation of the classes; (b) Hypothesis: vectors up to 9 geos with drawn ranges/tolerances. '
+        'permutation of the classes; (b) Hypothesis: vectors up to 9 geos with drawn ranges/tolerances and n_geos_max (count over the admitted geos), and vectors of 25-45 geos in a few classes checked against an exact polynomial (generating-function) count. '
         'Non-trivial = some setting of the case has count > 0 and >= 2 non-free classes are present; distinct by spec hash.')
 BUDGET = {'quick': 160, 'thorough': 4000}
 FLOOR = {'quick': 100, 'thorough': 800}
@@ -60,11 +60,33 @@ def _spec(draw):
       return [a, a + draw(st.integers(0, 5))]
     tol = draw(st.sampled_from([None, 0.1, 0.25, 0.5, 1.0, 1.5, 2.0, 3.0, 7.0]))
     sets.append([rng(), rng(), tol])
-  return {'vector': v, 'perm_seed': draw(st.integers(0, 10 ** 6)), 'settings': sets, 'search': False}
+  return {'vector': v, 'perm_seed': draw(st.integers(0, 10 ** 6)), 'settings': sets, 'search': False,
+          'n_geos_max': draw(st.sampled_from([None, None, 2, 3, 4, 5]))}
+
+
+@st.composite
+def _large(draw):
+  """Realistic geo counts (25-45): a few classes only, so that the fast count stays fast; oracle = exact polynomial."""
+  v = [0] * 7
+  main = draw(st.sampled_from([5, 5, 2, 3, 4]))
+  v[main] = draw(st.integers(24, 40))
+  for _ in range(draw(st.integers(0, 3))):
+    v[draw(st.integers(0, 6))] += draw(st.integers(1, 2))
+  sets = []
+  n = sum(v)
+  for _ in range(draw(st.integers(2, 4))):
+    def rng():
+      mode = draw(st.integers(0, 2))
+      if mode == 0:
+        return None
+      a = draw(st.integers(1, n // 2 + 2))
+      return [a, a + (0 if mode == 1 else draw(st.integers(0, n)))]
+    sets.append([rng(), rng(), draw(st.sampled_from([None, None, 0.1, 0.5, 1.0, 3.0]))])
+  return {'vector': v, 'perm_seed': draw(st.integers(0, 10 ** 6)), 'settings': sets, 'search': False, 'large': True}
 
 
 def strategy(tier):
-  return _spec()
+  return st.one_of(_spec(), _spec(), _large())
 
 
 def build(spec):
@@ -96,6 +118,25 @@ def settings_of(spec):
     k = int(s[4:])
     return [x for j, x in enumerate(SETTINGS) if j % 6 == k]
   return [(None if a is None else tuple(a), None if b is None else tuple(b), c) for a, b, c in s]
+
+
+def histogram_poly(counts):
+  """Same histogram by exact polynomial multiplication (Python ints): each class contributes a factor in (t, c):
+  c_fixed: c, t_fixed: t, cx: 1 + c, tx: 1 + t, ct: c + t, ctx: 1 + c + t. Coefficient of t^a c^b = number of assignments."""
+  factors = {'c_fixed': [(0, 1)], 't_fixed': [(1, 0)], 'cx': [(0, 0), (0, 1)], 'tx': [(0, 0), (1, 0)],
+             'ct': [(0, 1), (1, 0)], 'ctx': [(0, 0), (0, 1), (1, 0)]}
+  poly = {(0, 0): 1}
+  for cname, k in counts.items():
+    if cname == 'x_fixed':
+      continue
+    for _ in range(k):
+      nxt = {}
+      for (a, b), coef in poly.items():
+        for da, db in factors[cname]:
+          key = (a + da, b + db)
+          nxt[key] = nxt.get(key, 0) + coef
+      poly = nxt
+  return {k: v for k, v in poly.items() if k[0] and k[1]}
 
 
 def histogram(cls_of):
@@ -131,9 +172,13 @@ def run(spec):
   from vmm import core
   df, el, cls_of = build(spec)
   n = len(cls_of)
-  hist = histogram(cls_of)
+  large = bool(spec.get('large'))
+  hist = histogram_poly(dict(zip(CLASSES, spec['vector'])))
+  if not large and hist != histogram(cls_of):
+    from vmm import core
+    raise core.HarnessError('the two oracle histograms disagree for %s' % spec['vector'])
   viol = []
-  cls = ['geos:%d' % n]
+  cls = ['geos:%s' % (n if n <= 9 else '25+')]
   any_positive = False
   det0 = {'vector': dict(zip(CLASSES, spec['vector']))}
   sets = settings_of(spec)
@@ -146,10 +191,18 @@ def run(spec):
       kw['control_geos_range'] = tuple(crng)
     if tol is not None:
       kw['geo_ratio_tolerance'] = tol
+    if spec.get('n_geos_max'):
+      kw['n_geos_max'] = spec['n_geos_max']
     want = sum(k for (nt, nc), k in hist.items() if passes(nt, nc, trng, crng, tol))
     try:
       data = tbrmmdata.TBRMMData(df.copy(), 'response', geoeligibility.GeoEligibility(el.copy()))
       mm = tbrmatchedmarkets.TBRMatchedMarkets(data, tbrmmdesignparameters.TBRMMDesignParameters(**kw))
+      if spec.get('n_geos_max'):
+        # the count refers to the geos admitted to the search (C01 decides that set); enumerate over exactly those
+        adm = {str(g) for g in mm.geos_within_constraints}
+        hist_c = histogram({g: c for g, c in cls_of.items() if g in adm})
+        want = sum(k for (nt, nc), k in hist_c.items() if passes(nt, nc, trng, crng, tol))
+        cls.append('n_geos_max')
       got = mm.count_max_designs()
     except ValueError as e:
       # an empty admitted set is reported by ValueError ('geos' is not specified ...): nothing to count
@@ -166,7 +219,7 @@ def run(spec):
     if want > 0:
       any_positive = True
     # generator listing (all settings for small spaces, a rotating part otherwise)
-    if n <= 5 or si % 6 == spec['perm_seed'] % 6:
+    if not large and (n <= 5 or si % 6 == spec['perm_seed'] % 6):
       try:
         idx = list(mm.data.geo_index)
         pairs = []
@@ -181,7 +234,7 @@ def run(spec):
           viol.append(('C11:count-differs-from-generator-listing', dict(det, count_max_designs=int(got), listed=len(set(pairs)))))
         for T, C in set(pairs):
           ok = T and C and not (T & C) and all(ROW[cls_of[g]][1] for g in T) and all(ROW[cls_of[g]][0] for g in C) and \
-              all(g in T or g in C for g, c in cls_of.items() if c in ('c_fixed', 't_fixed', 'ct')) and passes(len(T), len(C), trng, crng, tol)
+              all(g in T or g in C for g, c in cls_of.items() if c in ('c_fixed', 't_fixed', 'ct') and (not spec.get('n_geos_max') or g in adm)) and passes(len(T), len(C), trng, crng, tol)
           if not ok:
             viol.append(('C11:generator-lists-illegal-pair', dict(det, T=sorted(T), C=sorted(C))))
             break
